@@ -511,7 +511,7 @@ class Exec:
         return out
 
     # ------------------------------------------------------------ entry
-    def run_body(self, body, args=None, subst=None):
+    def run_body(self, body, args=None, subst=None, setup=None):
         """Evaluate `body` with symbolic parameters.  Reference parameters point to symbolic
         pointees mk("param", i).  `subst`: type arguments for a generic body."""
         COVERED.add(body.ident())
@@ -523,8 +523,10 @@ class Exec:
         fr = Frame(body, mir, locs, None, 0)
         if subst:
             fr.subst = dict(subst)
-        st.frames.append(fr)
         self.param_locs = {}
+        if setup is not None:
+            args = setup(self, st)      # may allocate locations and register them in self.param_locs
+        st.frames.append(fr)
         n = mir["arg_count"]
         for i in range(1, n + 1):
             ty = F.norm_ty(mir["locals"][i]["ty"])
@@ -1184,7 +1186,7 @@ class Exec:
                 return mk("agg", ("adt", "core::option::Option", 1, "Some"), (a0[2][0],))
             return None
         if tag(a0) != "sliceiter" and not (base.startswith("core::option::Option::<T>::unwrap") or base.startswith("core::option::Option::<T>::expect")
-                                           or base.startswith("core::mem::replace") or base.startswith("core::mem::swap")):
+                                           or base.startswith("core::mem::replace") or base.startswith("core::mem::swap") or base.startswith("core::mem::take")):
             return None
         if base.startswith("core::iter::Iterator::rev") and len(args) == 1:
             return mk("sliceiter", a0[1], a0[2], a0[3], 1 - a0[4])
@@ -1228,6 +1230,11 @@ class Exec:
             ra = raw_args[0]
             old = self.load(st, ra[1], ra[2])
             self.store_to(st, ra[1], tuple(ra[2]), raw_args[1])
+            return old
+        if base.startswith("core::mem::take") and len(raw_args) == 1 and tag(raw_args[0]) == "ref":
+            ra = raw_args[0]
+            old = self.load(st, ra[1], ra[2])
+            self.store_to(st, ra[1], tuple(ra[2]), mk("call", "Default::default<%s>" % ",".join(canon_generic(a) for a in (r.get("args") or [])) ))
             return old
         if base.startswith("core::mem::swap") and len(raw_args) == 2 and tag(raw_args[0]) == "ref" and tag(raw_args[1]) == "ref":
             ra, rb = raw_args
